@@ -11,7 +11,11 @@ C15_restrict_refines C15_partition_from_refinement C15_infos_from_refinement C15
 C15_efficiency_order_by_cells C15_finding_split_drops_forced
 C15_kinds_are_classes C15_internal_register_classes C15_unranked_keeps_order
 C15_restrict_cuts_by_root C15_restrict_covers C15_restrict_independent_of_allowed C15_allow_keeps_kinds
-C15_allowed_within_root C15_allow_history_reduces C15_kinds_partition_disallowed""".split()]
+C15_allowed_within_root C15_allow_history_reduces C15_kinds_partition_disallowed
+C15_rank_shape C15_rank_spec C15_rank_consistent_with_forced C15_forced_strategy_fails C15_strategy_table
+C15_strategy_selects C15_rank_by_strategy C15_info_summary C15_env_values C15_env_history_invariant
+C15_env_history_ranked C15_rank_consistent_with_forced_history C15_rank_consistent_with_forced_after_rank
+C15_env_history_refinement""".split()] + ["Hw.CpuKinds.runET_specOK"]
 CHECK_MODULES = ["Hw.Props.C15"]
 TRUSTED = ["hwloc_bitmap_compare_inclusion / and / andnot / iszero enter the model through their set-level meaning on finite "
            "sets (Nat masks); the bitmap layer itself is C03",
